@@ -3788,7 +3788,7 @@ class DecVarSub(VarSub):
         if len(self.vtype) == 1:
             vtypes = self.vtype
         else:
-            vtypes = np.array(list(self.vtype)).reshape(self.shape)
+            vtypes = np.array(list(self.vtype))
             vtypes = ''.join(vtypes[self.indices].flatten())
         if 'B' in vtypes or 'I' in vtypes:
             raise ValueError('No affine adaptation for integer variables.')
